@@ -6,12 +6,21 @@ From KD Require Import C18.Model C18.Spec.
 Open Scope Z_scope.
 
 (* the tiny member collators the harness builds (harness/c18.py: _Member, PadSequencesCollator) *)
-Inductive mkind := KId | KMark (c : Z) | KCtxWrite (key : Z) | KPad.
+(* KAddKeys: a REAL collator (KDMixCollator, KDDinoMaskCollator, KDIjepaMaskCollator) seen through its
+   contract only: it keeps the layout of the batch and writes the announced keys into the batched context
+   (the contents of the fields it rewrites and of the values it writes are not modelled here) *)
+Inductive mkind := KId | KMark (c : Z) | KCtxWrite (key : Z) | KAddKeys (ks : list Z) | KPad.
 
 Definition mark_field (c : Z) (f : field) : field :=
-  match f with FScalar z => FScalar (z + c) | FSeq l => FSeq (map (fun v => v + c) l) end.
+  match f with
+  | FScalar d z => FScalar d (z + c)
+  | FSeq d tr l => FSeq d tr (map (map (fun v => v + c)) l)
+  end.
 Definition mark_cfield (c : Z) (f : cfield) : cfield :=
-  match f with CVec l => CVec (map (fun v => v + c) l) | CMat r => CMat (map (map (fun v => v + c)) r) end.
+  match f with
+  | CVec d l => CVec d (map (fun v => v + c) l)
+  | CMat d tr r => CMat d tr (map (map (map (fun v => v + c))) r)
+  end.
 Definition on_head {A} (f : A -> A) (l : list A) : list A := match l with [] => [] | a :: r => f a :: r end.
 Definition mark_batch (c : Z) (b : batch) : option batch :=
   match b with
@@ -30,6 +39,7 @@ Definition member_of (mk : cmode * mkind) : member :=
   | KId => {| mmode := fst mk; mcollate := fun b x => Some (b, x) |}
   | KMark c => {| mmode := fst mk; mcollate := fun b x => option_map (fun b' => (b', x)) (mark_batch c b) |}
   | KCtxWrite key => {| mmode := fst mk; mcollate := fun b x => Some (b, set_key key [key] x) |}
+  | KAddKeys ks => {| mmode := fst mk; mcollate := fun b x => Some (b, fold_left (fun x' k => set_key k [] x') ks x) |}
   | KPad => pad_member
   end.
 
@@ -42,14 +52,14 @@ Fixpoint list_eqb {A} (eq : A -> A -> bool) (a b : list A) : bool :=
   end.
 Definition field_eqb (a b : field) : bool :=
   match a, b with
-  | FScalar x, FScalar y => x =? y
-  | FSeq x, FSeq y => list_eqb Z.eqb x y
+  | FScalar d x, FScalar e y => dtype_eqb d e && (x =? y)
+  | FSeq d tr x, FSeq e ts y => dtype_eqb d e && shape_eqb tr ts && list_eqb (list_eqb Z.eqb) x y
   | _, _ => false
   end.
 Definition cfield_eqb (a b : cfield) : bool :=
   match a, b with
-  | CVec x, CVec y => list_eqb Z.eqb x y
-  | CMat x, CMat y => list_eqb (list_eqb Z.eqb) x y
+  | CVec d x, CVec e y => dtype_eqb d e && list_eqb Z.eqb x y
+  | CMat d tr x, CMat e ts y => dtype_eqb d e && shape_eqb tr ts && list_eqb (list_eqb (list_eqb Z.eqb)) x y
   | _, _ => false
   end.
 Definition bctx_eqb : bctx -> bctx -> bool :=
@@ -87,7 +97,10 @@ Definition observable (t : list op) : list op :=
 
 (* ---- boolean spec on the implementation's output ---- *)
 Definition is_pad (k : mkind) : bool := match k with KPad => true | _ => false end.
-Definition is_ctxw (k : mkind) : bool := match k with KCtxWrite _ => true | _ => false end.
+Definition is_ctxw (k : mkind) : bool := match k with KCtxWrite _ | KAddKeys _ => true | _ => false end.
+(* the context keys a member announces to write *)
+Definition written_keys (k : mkind) : list Z :=
+  match k with KCtxWrite key => [key] | KAddKeys ks => ks | _ => [] end.
 
 Definition items_shapeb (n B : nat) (l : list (list field)) : bool :=
   Nat.eqb (length l) B && forallb (fun s => Nat.eqb (length s) n) l.
@@ -101,11 +114,13 @@ Definition has_layoutb (n B : nat) (collated : bool) (b : batch) : bool :=
   end.
 
 Fixpoint all_zero (l : list Z) : bool := match l with [] => true | z :: r => (z =? 0) && all_zero r end.
-(* p = r ++ zeros *)
-Fixpoint is_zero_padding_of (r p : list Z) : bool :=
+(* a padding step: exactly prod(trailing) numbers, every one exactly 0 *)
+Definition zero_step (tr : list nat) (e : elem) : bool := Nat.eqb (length e) (numel tr) && all_zero e.
+(* p = r ++ zero steps *)
+Fixpoint is_zero_padding_of (tr : list nat) (r p : list elem) : bool :=
   match r, p with
-  | [], _ => all_zero p
-  | a :: r', b :: p' => (a =? b) && is_zero_padding_of r' p'
+  | [], _ => forallb (zero_step tr) p
+  | a :: r', b :: p' => list_eqb Z.eqb a b && is_zero_padding_of tr r' p'
   | _ :: _, [] => false
   end.
 Fixpoint pairwiseb {A B} (f : A -> B -> bool) (a : list A) (b : list B) : bool :=
@@ -114,17 +129,20 @@ Fixpoint pairwiseb {A B} (f : A -> B -> bool) (a : list A) (b : list B) : bool :
   | x :: a', y :: b' => f x y && pairwiseb f a' b'
   | _, _ => false
   end.
+(* same dtype, same trailing shape, all rows M steps long, row i = sample i ++ zero steps,
+   M attained by some sample *)
 Definition padded_fieldb (col : list field) (out : cfield) : bool :=
   match col with
-  | FSeq _ :: _ =>
-      match map_opt get_seq col, out with
-      | Some rows, CMat prow =>
+  | FSeq d tr _ :: _ =>
+      match map_opt (get_seq d tr) col, out with
+      | Some rows, CMat d' tr' prow =>
           match prow with
           | [] => false
           | p0 :: _ =>
               let M := length p0 in
-              forallb (fun p => Nat.eqb (length p) M) prow
-              && pairwiseb is_zero_padding_of rows prow
+              dtype_eqb d d' && shape_eqb tr tr'
+              && forallb (fun p => Nat.eqb (length p) M) prow
+              && pairwiseb (is_zero_padding_of tr) rows prow
               && existsb (fun r => Nat.eqb (length r) M) rows
           end
       | _, _ => false
@@ -184,7 +202,10 @@ Definition check (t : case_t) : nat :=
         if negb (Bool.eqb (match oxo with Some _ => true | None => false end) rc) then 4%nat else
         if rc && negb (if existsb is_ctxw kinds
                        then match oxo, collate_ctx (sample_ctxs b) with
-                            | Some x, Some x0 => keys_incl (keys x0) (keys x)
+                            | Some x, Some x0 =>
+                                (* no sample key lost, no key invented beyond what the members announce *)
+                                keys_incl (keys x0) (keys x)
+                                && keys_incl (keys x) (keys x0 ++ flat_map written_keys kinds)
                             | _, _ => false end
                        else optctx_eqb oxo (collate_ctx (sample_ctxs b))) then 5%nat else
         if negb (has_layoutb n B (negb (all_none modes) || has_pad) ob) then 6%nat else
